@@ -51,7 +51,7 @@ def user_call(ex, f, args, kwargs, node):
     return common.opaque_call(ex, f, args, kwargs, node)
 
 
-def process_run_contract(ex, lid='L2', inject=None, cls=PW):
+def process_run_contract(ex, lid='L2', inject=None, cls=PW, prop='C16'):
     def setup(ex_, env):
         process_child(ex_, env, cls)
         ex_.ghost['__childenv__'] = env
@@ -89,7 +89,7 @@ def process_run_contract(ex, lid='L2', inject=None, cls=PW):
     outcome.__doc__ = reported.__doc__ + ' / on an Exception from the target: [identity, ((False, e), user_state)]'
 
     return Contract(
-        cls + '._run', lid=lid, name=f'C16.{lid} ProcessWorker._run reports ((ok, value), user_state) on return and on Exception',
+        cls + '._run', lid=lid, name=f'{prop}.{lid} ProcessWorker._run reports ((ok, value), user_state) on return and on Exception',
         params={'self': ('const', None)}, self_class=cls, setup=setup,
         ensures=[outcome], raises={'AnyBaseException': None}, raises_only=['AnyBaseException'],
         inject=inject,
